@@ -40,6 +40,8 @@ from solvor.utils import check_positive
 
 __all__ = ["solve_bin_pack"]
 
+_EPS = 1e-9  # same tolerance as solve_knapsack: 0.9 + 0.1 fills a bin of capacity 1.0
+
 
 def solve_bin_pack(
     item_sizes: Sequence[float],
@@ -99,13 +101,13 @@ def solve_bin_pack(
             # Find bin with least remaining space that still fits
             best_remaining = float("inf")
             for b, (remaining, _) in enumerate(bins):
-                if size <= remaining < best_remaining:
+                if size <= remaining + _EPS and remaining < best_remaining:
                     best_remaining = remaining
                     best_bin = b
         else:
             # First-fit: find first bin that fits
             for b, (remaining, _) in enumerate(bins):
-                if size <= remaining:
+                if size <= remaining + _EPS:
                     best_bin = b
                     break
 
